@@ -2,7 +2,7 @@
    At every segment the current node is reified by its UnixFS type; a plain directory is searched in its own link
    list (no request), a sharded directory through the HAMT lookup (requests: the shards on the segment's hash path);
    then the entry's block is requested and the walk continues there. *)
-From UV Require Import Hamt.Read Hamt.NoPanic Hamt.HashBitsSpec Hamt.Refine Hamt.WorkBound Sel.Model.
+From UV Require Import Hamt.Read Hamt.NoPanic Hamt.HashBitsSpec Hamt.Refine Hamt.WorkBound Sel.Model File.Spec.
 From UV Require Import Dir.Plain.
 From Coq Require Import ZifyN ZifyNat ZifyBool.
 Local Open Scope N_scope.
@@ -90,4 +90,22 @@ Section Walk.
     destruct (fault child); cbn [length]; [lia|].
     specialize (IH child). rewrite walk_path_requests in IH. lia.
   Qed.
+
+  (* the preloading reifier at the target ("unixfs-preload"): a file is read through once, a sharded directory is
+     counted (length()), anything else needs no further block *)
+  Definition preload_requests (b : blk) : list blk :=
+    match node_type b with
+    | Some t =>
+      if (t =? Data_File) || (t =? Data_Raw) then let '(_, loads, _) := drain_all (stream fault b 0) [] [] in loads
+      else if t =? Data_HAMTShard then snd (shard_length fault b)
+      else []
+    | None => []
+    end.
+
+  (* path selector with a preloading target: the lazy walk along the path, then the target's own blocks *)
+  Definition walk_then_preload (b : blk) (segs : list bytes) : list blk :=
+    match walk_path b segs with
+    | (Ok target, tr) => tr ++ preload_requests target
+    | (_, tr) => tr
+    end.
 End Walk.
